@@ -99,6 +99,9 @@ func (ft *funcTrans) call(in ssa.CallInstruction, val *ssa.Call) {
 	w := ft.w
 	com := in.Common()
 	if bi, ok := com.Value.(*ssa.Builtin); ok {
+		if bi.Name() == "append" && ft.c != nil && len(ft.c.CallReqs) > 0 {
+			ft.appendReqs(com, in)
+		}
 		ft.builtin(bi, com, val)
 		return
 	}
@@ -1068,4 +1071,56 @@ func (ft *funcTrans) localCells(b *ssa.BasicBlock) map[string]*Loc {
 		}
 	}
 	return cells
+}
+
+// appendReqs: "callreq append : e" / "callreq append#k : e" put an obligation on every (on the k-th,
+// in source order) append of the function; arg0 is the slice appended to, arg1 the appended element
+// for the one-element form append(s, x).
+func (ft *funcTrans) appendReqs(com *ssa.CallCommon, in ssa.CallInstruction) {
+	if ft.appendSites == nil {
+		for _, b := range ft.fn.Blocks {
+			for _, i2 := range b.Instrs {
+				if c2, ok := i2.(ssa.CallInstruction); ok {
+					if bi, ok := c2.Common().Value.(*ssa.Builtin); ok && bi.Name() == "append" {
+						ft.appendSites = append(ft.appendSites, c2.Pos())
+					}
+				}
+			}
+		}
+		sort.Slice(ft.appendSites, func(i, j int) bool { return ft.appendSites[i] < ft.appendSites[j] })
+	}
+	ord := 0
+	for i, p := range ft.appendSites {
+		if p == in.Pos() {
+			ord = i + 1
+		}
+	}
+	for k, cr := range ft.c.CallReqs {
+		if cr.Callee != "append" && cr.Callee != fmt.Sprintf("append#%d", ord) {
+			continue
+		}
+		ec := ft.localCtx(ft.curSt)
+		if v := ft.valOf(com.Args[0]); v.L == nil && v.Tup == nil && v.Bad == "" {
+			ec.env["arg0"] = v.T
+		}
+		if sl, ok := com.Args[1].(*ssa.Slice); ok && isSingletonArg(com.Args[1]) {
+			// the element stored into the one-element varargs array
+			if al, ok := sl.X.(*ssa.Alloc); ok {
+				for _, ref := range *al.Referrers() {
+					if ia, ok := ref.(*ssa.IndexAddr); ok {
+						for _, r2 := range *ia.Referrers() {
+							if st, ok := r2.(*ssa.Store); ok && st.Addr == ia {
+								if v := ft.valOf(st.Val); v.L == nil && v.Tup == nil && v.Bad == "" {
+									ec.env["arg1"] = v.T
+								}
+							}
+						}
+					}
+				}
+			}
+		}
+		t := ec.evalBool(cr.C.E)
+		o := ft.obligation("callreq", fmt.Sprintf("append%d.callreq%d", ord, k+1), cr.C.Src, t.S)
+		o.Where = posStr(ft.p.SSA.Fset, in.Pos())
+	}
 }
